@@ -1,13 +1,16 @@
 (* C04/C05 trace validator for kind=loop cases (harness/C04_driver.cc).  Input per case:
      case <id> kind=loop pts=0|1 ...
-     P <acts> / T <acts> / S <id> <acts>
+     P <acts> / L <acts> (one per further call of loop()) / T <acts> / S <id> <acts>
      trace
      <the implementation's output lines>
      end
    The loop thread is T0, foreign thread i is T(i+1).  Every trace line is mapped to a label of
    C04_Model.step (with the shape generated from the current source); steps without a visible
    system call (flag stores, tests, starting a functor) are taken as soon as the thread's previous
-   visible step is done, except that they stop at the instrumentation points; observers
+   visible step is done, except that they stop at the instrumentation points, at the driver's
+   "enter" / "loop-returned" events (entry and return of loop()) and, after a poll that dispatches
+   an I/O callback, at the "cb k" event (the wake-up channel may be handled before or after the
+   callback: PollPoller reports in registration order, epoll in readiness order); observers
    (queue size, eventfd counter, quit_, callingPendingFunctors_, looping_) are compared after every
    visible step and the order of functor / callback starts with the model's log.
    Output: "case <id>", "accepted <steps>" or "REJECT <line no>: <reason> | <line>", "end". *)
@@ -36,11 +39,11 @@ let obs_of (w : string list) key =
 
 type kind = KSection | KWriteEv | KWritePipe | KReadEv | KPoll | KSilent | KEnd
 
-let validate (pts : bool) (prefix : act list) (progs : act list list) (scripts : (int * act list) list)
-    (lines : string list) : int =
+let validate (pts : bool) (prefix : act list) (later : act list list) (progs : act list list)
+    (scripts : (int * act list) list) (lines : string list) : int =
   let sh = gen_shape in
   let scr (t : nat) = try List.assoc (int_of_nat t) scripts with Not_found -> [] in
-  let st = ref (init prefix progs) in
+  let st = ref (init prefix later progs) in
   let nthreads = 1 + List.length progs in
   let passed = Array.make nthreads false in
   let started = Array.make nthreads false in
@@ -48,6 +51,7 @@ let validate (pts : bool) (prefix : act list) (progs : act list list) (scripts :
   let steps = ref 0 in
   let wakefd = ref "" and pipew = ref "" and piper = ref "" in
   let stuck = ref false in
+  let enter_tok = ref 0 and ret_tok = ref 0 and cb_wait = ref false in
   let mop_kind il m =
     let g = !st.sg in
     match m with
@@ -69,13 +73,19 @@ let validate (pts : bool) (prefix : act list) (progs : act list list) (scripts :
       | LHandle false, [] -> (KSilent, None)
       | LSwap, _ -> (KSection, None)
       | LRun _, [] -> (KSilent, None)
-      | LDone, _ -> (KEnd, None)
+      | LExit, _ -> (KSilent, None)
+      | LDone, _ -> (match s.lnext with [] -> (KEnd, None) | _ -> (KSilent, None))
     else
       match List.nth_opt s.fcode (x - 1) with
       | Some (m :: _) -> mop_kind false m
       | _ -> (KEnd, None) in
   let do_step x lab =
     let before = List.length !st.sg.log in
+    (if x = 0 && lab = TLoop then
+       match !st.pc, !st.lcode with
+       | LPre, [] -> decr enter_tok
+       | LDone, _ -> decr ret_tok
+       | _ -> ());
     (match step sh scr !st lab with
      | Some s' -> st := s'
      | None -> rej "model: step of T%d not enabled" x);
@@ -86,7 +96,13 @@ let validate (pts : bool) (prefix : act list) (progs : act list list) (scripts :
         | EExecQ t | EExecI t -> Queue.add (Printf.sprintf "x %d" (int_of_nat t)) expected
         | _ -> ()) (drop before !st.sg.log) in
   let lab_of x = if x = 0 then TLoop else TF (nat_of_int (x - 1)) in
-  let blocked x = match snd (next x) with Some _ -> pts && not passed.(x) | None -> false in
+  let blocked x =
+    (x = 0 && (!cb_wait ||
+               (match !st.pc, !st.lcode with
+                | LPre, [] -> !enter_tok <= 0
+                | LDone, _ -> !ret_tok <= 0
+                | _ -> false))) ||
+    (match snd (next x) with Some _ -> pts && not passed.(x) | None -> false) in
   let rec eager x =
     if started.(x) && not (blocked x) then
       match fst (next x) with
@@ -122,8 +138,11 @@ let validate (pts : bool) (prefix : act list) (progs : act list list) (scripts :
         if Queue.is_empty expected then rej "implementation runs task %s, the model runs none here" t;
         let e = Queue.pop expected in
         if e <> "x " ^ t then rej "implementation runs task %s, the model runs '%s'" t e
+    | ["e"; "T0"; "enter"] -> incr enter_tok; eager 0
     | ["e"; "T0"; "loop-returned"] ->
-        (match !st.pc with LDone -> () | _ -> rej "loop() returned, the model's loop thread has not reached its exit")
+        (match !st.pc with LDone -> () | _ -> rej "loop() returned, the model's loop thread has not reached its exit");
+        incr ret_tok; eager 0
+    | ["e"; "T0"; "cb"; _] -> cb_wait := false; eager 0
     | "e" :: _ -> ()
     | "t" :: _ :: tx :: kind :: obj :: res :: obs when not !stuck ->
         let x = tnum tx in
@@ -156,7 +175,7 @@ let validate (pts : bool) (prefix : act list) (progs : act list list) (scripts :
              let g = !st.sg in
              let exp = (if int_of_nat g.evfd > 0 then 1 else 0) + (if g.evq <> [] then 1 else 0) in
              if n <> exp then rej "poll returned %d ready descriptors, the model has %d" n exp;
-             (match g.evq with k :: _ -> Queue.add (Printf.sprintf "cb %d" (int_of_nat k)) expected | [] -> ());
+             (match g.evq with k :: _ -> Queue.add (Printf.sprintf "cb %d" (int_of_nat k)) expected; cb_wait := true | [] -> ());
              do_step 0 (if n = 0 then TSpur else TLoop);
              (* the callback start is logged by the implementation as "cb k": matched loosely *)
              check_obs obs; eager 0
@@ -172,7 +191,6 @@ let validate (pts : bool) (prefix : act list) (progs : act list list) (scripts :
     | "DEADLOCK" :: _ -> rej "DEADLOCK in the implementation (the model has no blocking lock cycle)"
     | "STEPLIMIT" :: _ -> rej "step limit (livelock) in the implementation"
     | "CRASH" :: _ -> rej "implementation crashed"
-    | ["e"; _; "cb"; k] -> ()
     | _ -> () in
   let lineno = ref 0 in
   List.iter (fun l ->
@@ -191,7 +209,7 @@ let validate (pts : bool) (prefix : act list) (progs : act list list) (scripts :
   !steps
 
 let () =
-  let cur_id = ref "" and pts = ref true and prefix = ref [] and progs = ref [] and scripts = ref [] in
+  let cur_id = ref "" and pts = ref true and prefix = ref [] and later = ref [] and progs = ref [] and scripts = ref [] in
   let in_trace = ref false and lines = ref [] and kind = ref "loop" in
   (try
      while true do
@@ -204,7 +222,7 @@ let () =
            (if !kind <> "loop" then print_string "accepted 0\n"
             else
               try
-                let n = validate !pts !prefix (List.rev !progs) !scripts (List.rev !lines) in
+                let n = validate !pts !prefix (List.rev !later) (List.rev !progs) !scripts (List.rev !lines) in
                 Printf.printf "accepted %d\n" n
               with Reject s -> Printf.printf "REJECT %s\n" s
                  | Failure s -> Printf.printf "REJECT 0: validator failure %s | -\n" s);
@@ -213,11 +231,12 @@ let () =
        end else
          match w with
          | "case" :: id :: rest ->
-             cur_id := id; prefix := []; progs := []; scripts := []; lines := []; pts := true; kind := "loop";
+             cur_id := id; prefix := []; later := []; progs := []; scripts := []; lines := []; pts := true; kind := "loop";
              List.iter (fun t ->
                  if t = "pts=0" then pts := false;
                  if String.length t > 5 && String.sub t 0 5 = "kind=" then kind := String.sub t 5 (String.length t - 5)) rest
          | "P" :: r -> prefix := parse_acts r
+         | "L" :: r -> later := parse_acts r :: !later
          | "T" :: r -> progs := parse_acts r :: !progs
          | "S" :: id :: r -> scripts := (int_of_string id, parse_acts r) :: !scripts
          | ["trace"] -> in_trace := true
